@@ -179,6 +179,19 @@ def jnp_sum(I, x, axis=None):
     if isinstance(x, (int, float)):
         return SReal(x)
     if isinstance(x, Stacked):
+        probe = x.at(I.ctx.const("iprobe", z3.IntSort()))
+        if isinstance(probe, (bool, SBool, int, SInt)):
+            # integer-valued sum (a count of flags): an integer with the same weak theory (empty sum, explicit small sums,
+            # bounds); no extensionality lemma is recorded for it
+            n = z3.IntVal(x.n) if isinstance(x.n, int) else x.n
+            c = I.ctx.const("isum", z3.IntSort())
+            term = lambda e: z3.If(zbool(e), 1, 0) if isinstance(e, (bool, SBool)) else zint(e)
+            I.ctx.assume(z3.Implies(n <= 0, c == 0))
+            if isinstance(probe, (bool, SBool)):
+                I.ctx.assume(z3.And(c >= 0, z3.Implies(n >= 0, c <= n)))
+            if isinstance(x.n, int) and 0 < x.n <= 6:
+                I.ctx.assume(c == z3.Sum([term(x.at(z3.IntVal(k))) for k in range(x.n)]))
+            return SInt(c, False)
         return I.make_sum(x)
     if isinstance(x, (list, tuple)):
         acc = SReal(0.0)
